@@ -204,6 +204,7 @@ class Net:
         self.cleans: list[dict] = []
         self.after_exit: list[dict] = []
         self.never_withdrawn: list[str] = []
+        self.bad_records: list[dict] = []
         self.opened_while_paused: list[dict] = []
         self.cleans_checked = 0
         self.enc_cases: list[tuple] = []
@@ -325,6 +326,9 @@ def installed(net: Net) -> Iterator[None]:
             rec = rec_of(st[op.id])
             if isinstance(rec, list) and rec and rec[0] == 'odd':
                 net.odd.append(['odd-touch', op.id, p])
+            elif rec is not None and (rec[0] != op.spec['prio'] or rec[1] != op.spec['life']):
+                net.bad_records.append({'at_ms': ms(net.loop.time()), 'operator': op.id, 'written': rec,
+                                        'configured': [op.spec['prio'], op.spec['life']]})
             if op.exited:
                 net.after_exit.append({'at_ms': ms(net.loop.time()), 'operator': op.id, 'patch': p,
                                        'from': 'process_peering_event' if ev is not None else 'keepalive'})
@@ -556,6 +560,8 @@ def gen_scenario(r: _random.Random, idx: int) -> dict:
     slow = r.random() < 0.15                     # delivery slower than the keep-alive margin: T-tie only
     jitter = r.choice([5, 7, 10])
     lives = [r.choice([3, 7, 12, 20, 60]) for _ in ids]
+    if r.random() < 0.12:        # a keep-alive lifetime of a day and more (e.g. a long `kopf freeze`-like peer)
+        lives[r.randrange(nops)] = r.choice([86400, 90000, 172800, 172860])
     # keep-alive margin of the tightest operator: a view older than this may show a renewed record as expired
     margin = min(l - max(1, min(l, max(1, l - jitter))) for l in lives)
     specs = {}
@@ -598,7 +604,7 @@ def gen_scenario(r: _random.Random, idx: int) -> dict:
         else:
             actions.append({'at': t, 'do': 'foreign', 'id': r.choice(['frozen', 'dev@laptop']), 'rec': None})
     return {'idx': idx, 'ops': specs, 'actions': actions, 'jitter': jitter, 'slow': slow,
-            'tail': 2 * max(s['life'] for s in specs.values()) + 45}
+            'tail': 2 * max(min(s['life'], 60) for s in specs.values()) + 45}
 
 
 def spec_blockers(net: Net, op: Op, now: int) -> dict[str, int]:
@@ -749,7 +755,7 @@ def run_scenario(ctx: fw.Ctx, sc: dict) -> Net:
         end = t0 + (sc['actions'][-1]['at'] if sc['actions'] else 0) + sc['tail']
         t = loop.time()
         while t < end:
-            t = min(end, t + 2.437)   # never a label instant (labels are at multiples of 125 ms): only monitors run here
+            t = min(end, t + max(2.437, round(sc['tail'] / 150) + 0.437))   # never a label instant (labels are at multiples of 125 ms): only monitors run here
             run_to(t)
             monitor_instant(ctx, net, 'tail')
             if quiescent(net):
@@ -772,16 +778,21 @@ def monitor_final(ctx: fw.Ctx, net: Net) -> None:
     for op in net.ops.values():
         if op.state != 'up' and op.id in recs:
             r = recs[op.id]
-            if (r[2] if r[2] is not None else now) + r[1] * 1000 > now:
+            # (a killed operator's record legitimately lives until lastseen + its configured lifetime)
+            if is_live(r, now) and (op.exited or r[2] is None or now >= r[2] + op.spec['life'] * 1000):
                 ctx.fail('an operator that exited or was killed long ago still has a live record',
                          {'scenario': sc, 'operator': op.id}, observed={'record': r, 'at_ms': now}, sig='net-zombie-record')
+    for v in net.bad_records[:3]:
+        ctx.fail('the record an operator writes for itself does not carry its configured priority / lifetime',
+                 {'scenario': sc, **v}, sig='net-record-wrong')
     for v in net.opened_while_paused[:3]:
         ctx.fail('a watch-stream was (re)opened while the operator is paused', {'scenario': sc, **v}, sig='net-stream-open-while-paused')
     for ident in net.never_withdrawn:
         ctx.fail('an operator exited gracefully without removing its record', {'scenario': sc, 'operator': ident},
                  observed={'status': net.body.get('status')}, sig='net-exit-not-withdrawn')
     # expired records of others are cleaned up (somebody is running and has had events since)
-    if ups and not sc['slow']:
+    # (cleaning happens on events: somebody's keep-alive must have come since; a lone day-long peer has none)
+    if ups and not sc['slow'] and any(op.spec['life'] <= 60 for op in ups):
         dead = [k for k, (p, l, s) in recs.items() if (now if s is None else s) + l * 1000 <= now]
         if dead:
             ctx.fail('expired records are left in the peering object although operators are running',
@@ -803,6 +814,7 @@ def run_networks(ctx: fw.Ctx, header: str, n: int) -> None:
         ctx.count('net_keepalive_jitter', str(sc['jitter']))
         for spec in sc['ops'].values():
             ctx.count('net_keepalive_lifetime', str(spec['life']))
+            ctx.count('net_keepalive_lifetime_class', '>= 1 day' if spec['life'] >= 86400 else '< 1 day')
         ctx.count('net_keepalive_labels', 'LKeepalive', sum(1 for l in net.trace if l[0] == 'keepalive'))
         ctx.count('net_keepalive_labels', 'LWake', sum(1 for l in net.trace if l[0] == 'wake'))
         ctx.count('net_keepalive_labels', 'LExit/LGone', sum(1 for l in net.trace if l[0] in ('exit', 'gone')))
